@@ -177,6 +177,7 @@ var mutantCatalogue = map[string][]mutant{
 		{Name: "decode does not stall after a jump", File: "proc/mvp6-0/du.go", Old: "\t\t\tu.pendingBranchResolution = true\n", New: ""},
 	},
 	"C04": {
+		{Name: "dispatched instruction reported as not dispatched", File: "proc/mvp7-0/cu.go", Old: "\tlog.Infoi(ctx, \"CU\", runner.Runner.InstructionType(), runner.Pc, \"pushing runner\")\n\treturn true", New: "\tlog.Infoi(ctx, \"CU\", runner.Runner.InstructionType(), runner.Pc, \"pushing runner\")\n\treturn false"},
 		{Name: "in-place store never released", File: "proc/mvp6-1/eu.go", Old: "\t\tr.ctx.DeletePendingRegisters(u.runner.Runner.ReadRegisters(), u.runner.Runner.WriteRegisters())\n", New: ""},
 		{Name: "in-order stall inverted", File: "proc/mvp5/eu.go", Old: "\tif ctx.IsWriteDataHazard(runner.Runner.ReadRegisters()) {", New: "\tif !ctx.IsWriteDataHazard(runner.Runner.ReadRegisters()) {"},
 		{Name: "in-order stall on the write set", File: "proc/mvp4/eu.go", Old: "\tif ctx.IsWriteDataHazard(runner.Runner.ReadRegisters()) {", New: "\tif ctx.IsWriteDataHazard(runner.Runner.WriteRegisters()) {"},
